@@ -220,6 +220,32 @@ def run(ctx):
     T.clause_retrieve_cache(R, F)
     W7.clause_table_reorg_visits_all(R, F)
     T.clause_commit_per_key(R, F)
+    # the ledger is contract storage: revm's state diff is written slot by slot in DatabaseCommit::commit, and a slot that
+    # went back to exactly zero (a whole balance moved or withdrawn) is a *changed* slot like any other.  In the innermost loop
+    # that holds the slot store, the only tests are the iterator's exhaustion and `is_changed` (round-6 seed
+    # C07-zero-slot-not-written: `|| present_value().is_zero()` keeps the sender's balance while the receiver is credited)
+    import looprule as _LR7
+    n_store_loops = 0
+    for f7 in F.host_units():
+        if not (f7.name.endswith("::commit") and "DatabaseCommit" in f7.name):
+            continue
+        sm = [c for c in f7.calls() if (c.target_path or "").endswith("set_account_memory") and not f7.is_cleanup(c.bb)]
+        loops = sorted([(len(b_), h_, b_) for (h_, b_, _k) in _LR7.natural_loops(f7) if any(c.bb in b_ for c in sm)], key=lambda x: x[0])
+        if not loops:
+            continue
+        n_store_loops += 1
+        _n, _h, body7 = loops[0]
+        for b7 in sorted(body7):
+            t7 = f7.term(b7)
+            if t7["k"] != "switch" or f7.is_cleanup(b7):
+                continue
+            heads = {x[1].split("::")[-1] for x in calls_in(origin(f7, t7["discr"]))}
+            extra = heads - {"next", "into_iter", "iter", "is_changed"}
+            R.ob(not extra and bool(heads), "GUARD", "%s:%s" % (f7.loc["f"], (t7.get("loc") or {}).get("l")), "GUARD|db.commit|slot-skip-only-unchanged",
+                 "the slot loop of DatabaseCommit::commit tests something besides `is_changed` (%s): a changed slot can be left unwritten "
+                 "(a balance that returns to zero keeps its old value)" % sorted(extra),
+                 sample={"rule": "GUARD", "fn": "DatabaseCommit::commit", "tests": sorted(heads)})
+    R.floor("slot_store_loops", n_store_loops, 1)
     # "no transaction a user can submit can create or destroy tokens": the public simulation end points execute arbitrary calls
     # with any sender (the indexer address included); nothing they do may reach the database (no commit capability, no store
     # into a state container) - otherwise eth_callMany(from = indexer, mint(..)) mints
